@@ -244,6 +244,17 @@ def two_triangle_fan():
     return Mesh(V, np.array([[0, 1, 2], [0, 2, 3]]).T, name="fan2", closed=False)
 
 
+def bipyramid(n, closed=True):
+    """Ring of n vertices with an apex above (and, if closed, below): apex valence n, 2n (n) triangles, outward oriented."""
+    t = 2 * np.pi * np.arange(n) / n
+    ring = np.stack([np.cos(t), np.sin(t), 0.05 * np.cos(3 * t)])
+    V = np.hstack([ring, np.array([[0.0], [0.0], [0.9]])] + ([np.array([[0.0], [0.0], [-0.7]])] if closed else []))
+    E = [[i, (i + 1) % n, n] for i in range(n)]
+    if closed:
+        E += [[(i + 1) % n, i, n + 1] for i in range(n)]
+    return Mesh(V, np.array(E).T, name="bipyramid%d%s" % (n, "" if closed else "_open"), closed=closed)
+
+
 def multitrace_cubes():
     """Two unit cubes sharing a face; the interface is kept once (non-manifold edges with 3 neighbours).
 
